@@ -1,4 +1,5 @@
 import EbisimProofs.Lemmas.Newton
+import EbisimProofs.Lemmas.Comparison
 import EbisimProofs.Lemmas.Trapz
 import EbisimProofs.Lemmas.Consts
 
@@ -695,4 +696,265 @@ theorem loop_wall_zero (I : BPIn ℝ) (tol u : ℝ) (n : ℕ) (hn : 0 < n) (hr :
 
 -- non-vacuity: a wall row (0, 1, ·) and a three-node grid whose last node lies outside the beam
 example : ([0, 1e-4, 2e-4] : List ℝ).getLast? = some 2e-4 ∧ (1e-4 : ℝ) < 2e-4 := by constructor <;> norm_num
+/-! ## comparison principle: adding positive ions never lowers the potential -/
+
+theorem zip_add_le : ∀ (a c : List ℝ), (∀ v ∈ c, v ≤ 0) →
+    ∀ p ∈ List.zip a (List.zipWith (· + ·) a c), p.2 ≤ p.1
+  | [], _, _ => by simp
+  | _ :: _, [], _ => by simp
+  | a0 :: as, c0 :: cs, h => by
+    have ih := zip_add_le as cs (fun v hv => h v (by simp [hv]))
+    intro p hp
+    simp only [List.zipWith_cons_cons, List.zip_cons_cons, List.mem_cons] at hp
+    rcases hp with rfl | hp
+    · have := h c0 (by simp); simp only; linarith
+    · exact ih p hp
+
+theorem colSum_nonpos (n : ℕ) (rows : List (List ℝ)) (h : ∀ row ∈ rows, ∀ v ∈ row, v ≤ 0) :
+    ∀ v ∈ colSum n rows, v ≤ 0 := by
+  unfold colSum
+  have key : ∀ (rows : List (List ℝ)) (acc : List ℝ), (∀ row ∈ rows, ∀ v ∈ row, v ≤ 0) → (∀ v ∈ acc, v ≤ 0) →
+      ∀ v ∈ rows.foldl (fun acc row => List.zipWith (· + ·) acc row) acc, v ≤ 0 := by
+    intro rows
+    induction rows with
+    | nil => intro acc _ ha; simpa using ha
+    | cons row rows ih =>
+      intro acc hr ha
+      simp only [List.foldl_cons]
+      apply ih _ (fun r hr' => hr r (by simp [hr']))
+      intro v hv
+      rw [← List.map_uncurry_zip_eq_zipWith] at hv
+      obtain ⟨p, hp, rfl⟩ := List.mem_map.mp hv
+      have h1 := ha p.1 (List.of_mem_zip hp).1
+      have h2 := hr row (by simp) p.2 (List.of_mem_zip hp).2
+      simp only [Function.uncurry]; linarith
+  exact key rows _ h (by intro v hv; simp at hv; linarith [hv.2])
+
+theorem zeroLast_nonpos : ∀ (l : List ℝ), (∀ v ∈ l, v ≤ 0) → ∀ v ∈ zeroLast l, v ≤ 0
+  | [], _ => by simp [zeroLast]
+  | [_], _ => by simp [zeroLast]
+  | x :: y :: rest, h => by
+    have ih := zeroLast_nonpos (y :: rest) (fun v hv => h v (by simp [hv]))
+    intro v hv
+    simp only [zeroLast, List.mem_cons] at hv
+    rcases hv with rfl | hv
+    · exact h _ (by simp)
+    · exact ih v (by simpa [zeroLast] using hv)
+
+/-- the ion term of the right-hand side is nowhere positive when the on-axis densities and charge
+states are non-negative -/
+theorem ion_rhs_nonpos (n : ℕ) (sp : List (Species ℝ)) (shape : List (List ℝ)) (nax : List ℝ)
+    (hq : ∀ s ∈ sp, 0 ≤ s.q) (hnax : ∀ v ∈ nax, 0 ≤ v) (hsh : ∀ sh ∈ shape, ∀ v ∈ sh, 0 ≤ v) :
+    ∀ v ∈ colSum n (zipWith3 (fun (s : Species ℝ) (sh : List ℝ) nx =>
+      zeroLast (sh.map fun v => -nx * s.q * v * Const.Q_E / Const.EPS_0)) sp shape nax), v ≤ 0 := by
+  apply colSum_nonpos
+  intro row hrow
+  obtain ⟨s, hs, sh, hsh', nx, hnx, rfl⟩ := mem_zipWith3 _ _ _ _ row hrow
+  apply zeroLast_nonpos
+  intro v hv
+  obtain ⟨w, hw, rfl⟩ := List.mem_map.mp hv
+  have h1 := hq s hs
+  have h2 := hnax nx hnx
+  have h3 := hsh sh hsh' w hw
+  have : 0 ≤ nx * s.q * w * Const.Q_E / Const.EPS_0 := by
+    have := Const.Q_E_pos; have := Const.EPS_0_pos; positivity
+  have e : -nx * s.q * w * Const.Q_E / Const.EPS_0 = -(nx * s.q * w * Const.Q_E / Const.EPS_0) := by ring
+  rw [e]; linarith
+
+/-- **adding positive ions never lowers the potential anywhere** (on-axis-density variant, exact
+solutions of the discretised equations): if `φ` is a fixed point of the iteration — `A φ = b(φ)`,
+the discretised Poisson equation with Boltzmann-distributed ions, which is what a vanishing target
+function means — for ion species with non-negative on-axis densities and charge states, and `φ₀`
+solves the ion-free problem `A φ₀ = −ρ₀/ε₀` on the same grid, both grounded at the wall, then
+`φ₀ ≤ φ` at every node. -/
+theorem ions_raise_potential_onaxis (I : BPIn ℝ) (phi phi0 : List ℝ) (hv : I.variant = .onaxis)
+    (hg : GridMP I.r) (hldu : I.ldu = fdNonuniform I.r)
+    (hphi : phi.length = I.r.length) (hphi0 : phi0.length = I.r.length) (hb0 : I.b0.length = I.r.length)
+    (hq : ∀ s ∈ I.sp, 0 ≤ s.q) (hn : ∀ s ∈ I.sp, 0 ≤ s.nl)
+    (hfix : mulL 0 I.ldu phi = (step I phi).b) (hfree : mulL 0 I.ldu phi0 = I.b0)
+    (hw : phi.getLast? = some 0) (hw0 : phi0.getLast? = some 0) :
+    ∀ p ∈ List.zip phi0 phi, p.1 ≤ p.2 := by
+  obtain ⟨variant, r, ldu, b0, cden, e_kin, sp⟩ := I
+  simp only at hv hg hldu hphi hphi0 hb0 hq hn hfix hfree
+  subst hv; subst hldu
+  simp only [step] at hfix
+  set shape : List (List ℝ) := sp.map fun s => phi.map fun p => Transc.exp (-s.q * (p - phi.headD (lit 0)) / s.kT) with hshape
+  set i_sr : List ℝ := shape.map fun sh => trapz (List.zipWith (· * ·) r sh) r
+  set nax : List ℝ := zipWith3 (fun (s : Species ℝ) (_ : List ℝ) (_ : ℝ) => s.nl) sp shape i_sr with hnax
+  have hion := ion_rhs_nonpos phi.length sp shape nax hq
+    (by intro v hv'; obtain ⟨s, hs, _, _, _, _, rfl⟩ := mem_zipWith3 _ _ _ _ v hv'; exact hn s hs)
+    (by intro sh hsh v hv'
+        rw [hshape] at hsh
+        obtain ⟨s, _, rfl⟩ := List.mem_map.mp hsh
+        obtain ⟨p, _, rfl⟩ := List.mem_map.mp hv'
+        exact (Real.exp_pos _).le)
+  set bion := colSum phi.length (zipWith3 (fun (s : Species ℝ) (sh : List ℝ) nx =>
+      zeroLast (sh.map fun v => -nx * s.q * v * Const.Q_E / Const.EPS_0)) sp shape nax) with hbion
+  have hbl : (List.zipWith (· + ·) b0 bion).length = r.length := by
+    have := congrArg List.length hfix
+    rw [mulL_length 0 _ phi (by rw [fdNonuniform_length' r hg]; omega)] at this
+    omega
+  exact fd_comparison r b0 (List.zipWith (· + ·) b0 bion) phi0 phi hg hb0 hbl hphi0 hphi hfree hfix
+    (zip_add_le b0 bion hion) hw0 hw
+
+/-- the radial integral `∫ r · shape dr` (trapezoid rule) of a non-negative profile on a non-negative,
+non-decreasing grid is non-negative -/
+theorem trapz_rshape_nonneg (r sh : List ℝ) (hl : r.length = sh.length) (hr : r.Pairwise (· ≤ ·))
+    (hr0 : ∀ v ∈ r, 0 ≤ v) (hs : ∀ v ∈ sh, 0 ≤ v) : 0 ≤ trapz (List.zipWith (· * ·) r sh) r := by
+  rw [trapz_eq_dot r _ (by simp [hl])]
+  apply dot_nonneg _ _ (nodalW_nonneg r hr)
+  intro v hv
+  rw [← List.map_uncurry_zip_eq_zipWith] at hv
+  obtain ⟨p, hp, rfl⟩ := List.mem_map.mp hv
+  exact mul_nonneg (hr0 _ (List.of_mem_zip hp).1) (hs _ (List.of_mem_zip hp).2)
+
+/-- **adding positive ions never lowers the potential anywhere** (line-density variant with a static
+background, exact solutions of the discretised equations); same statement as
+`ions_raise_potential_onaxis` for species given by non-negative line densities -/
+theorem ions_raise_potential_linear (I : BPIn ℝ) (phi phi0 : List ℝ) (hv : I.variant = .linear)
+    (hg : GridMP I.r) (hldu : I.ldu = fdNonuniform I.r) (hr : I.r.Pairwise (· ≤ ·)) (hr0 : ∀ v ∈ I.r, 0 ≤ v)
+    (hphi : phi.length = I.r.length) (hphi0 : phi0.length = I.r.length) (hb0 : I.b0.length = I.r.length)
+    (hq : ∀ s ∈ I.sp, 0 ≤ s.q) (hn : ∀ s ∈ I.sp, 0 ≤ s.nl)
+    (hfix : mulL 0 I.ldu phi = (step I phi).b) (hfree : mulL 0 I.ldu phi0 = I.b0)
+    (hw : phi.getLast? = some 0) (hw0 : phi0.getLast? = some 0) :
+    ∀ p ∈ List.zip phi0 phi, p.1 ≤ p.2 := by
+  obtain ⟨variant, r, ldu, b0, cden, e_kin, sp⟩ := I
+  simp only at hv hg hldu hphi hphi0 hb0 hq hn hfix hfree hr hr0
+  subst hv; subst hldu
+  simp only [step] at hfix
+  set shape : List (List ℝ) := sp.map fun s => phi.map fun p => Transc.exp (-s.q * (p - phi.headD (lit 0)) / s.kT) with hshape
+  have hshpos : ∀ sh ∈ shape, ∀ v ∈ sh, 0 ≤ v := by
+    intro sh hsh v hv'
+    rw [hshape] at hsh
+    obtain ⟨s, _, rfl⟩ := List.mem_map.mp hsh
+    obtain ⟨p, _, rfl⟩ := List.mem_map.mp hv'
+    exact (Real.exp_pos _).le
+  have hshlen : ∀ sh ∈ shape, sh.length = phi.length :=
+    shape_len sp phi (fun s p => Transc.exp (-s.q * (p - phi.headD (lit 0)) / s.kT))
+  set i_sr : List ℝ := shape.map fun sh => trapz (List.zipWith (· * ·) r sh) r with hisr
+  set nax : List ℝ := zipWith3 (fun (s : Species ℝ) (_ : List ℝ) (isr : ℝ) => s.nl / lit 2 / Const.PI / isr) sp shape i_sr with hnax
+  have hion := ion_rhs_nonpos phi.length sp shape nax hq
+    (by intro v hv'
+        obtain ⟨s, hs, _, _, isr, hisr', rfl⟩ := mem_zipWith3 _ _ _ _ v hv'
+        rw [hisr] at hisr'
+        obtain ⟨sh, hsh, rfl⟩ := List.mem_map.mp hisr'
+        have h1 := trapz_rshape_nonneg r sh (by rw [hshlen sh hsh]; omega) hr hr0 (hshpos sh hsh)
+        have h2 := hn s hs
+        have := Const.PI_pos
+        simp only [lit_real]
+        positivity)
+    hshpos
+  set bion := colSum phi.length (zipWith3 (fun (s : Species ℝ) (sh : List ℝ) nx =>
+      zeroLast (sh.map fun v => -nx * s.q * v * Const.Q_E / Const.EPS_0)) sp shape nax) with hbion
+  have hbl : (List.zipWith (· + ·) b0 bion).length = r.length := by
+    have := congrArg List.length hfix
+    rw [mulL_length 0 _ phi (by rw [fdNonuniform_length' r hg]; omega)] at this
+    omega
+  exact fd_comparison r b0 (List.zipWith (· + ·) b0 bion) phi0 phi hg hb0 hbl hphi0 hphi hfree hfix
+    (zip_add_le b0 bion hion) hw0 hw
+
+theorem colSum_nonneg (n : ℕ) (rows : List (List ℝ)) (h : ∀ row ∈ rows, ∀ v ∈ row, 0 ≤ v) :
+    ∀ v ∈ colSum n rows, 0 ≤ v := by
+  unfold colSum
+  have key : ∀ (rows : List (List ℝ)) (acc : List ℝ), (∀ row ∈ rows, ∀ v ∈ row, 0 ≤ v) → (∀ v ∈ acc, 0 ≤ v) →
+      ∀ v ∈ rows.foldl (fun acc row => List.zipWith (· + ·) acc row) acc, 0 ≤ v := by
+    intro rows
+    induction rows with
+    | nil => intro acc _ ha; simpa using ha
+    | cons row rows ih =>
+      intro acc hr ha
+      simp only [List.foldl_cons]
+      apply ih _ (fun r hr' => hr r (by simp [hr']))
+      intro v hv
+      rw [← List.map_uncurry_zip_eq_zipWith] at hv
+      obtain ⟨p, hp, rfl⟩ := List.mem_map.mp hv
+      have h1 := ha p.1 (List.of_mem_zip hp).1
+      have h2 := hr row (by simp) p.2 (List.of_mem_zip hp).2
+      simp only [Function.uncurry]; linarith
+  exact key rows _ h (by intro v hv; simp at hv; linarith [hv.2])
+
+theorem zeroLast_nonneg : ∀ (l : List ℝ), (∀ v ∈ l, 0 ≤ v) → ∀ v ∈ zeroLast l, 0 ≤ v
+  | [], _ => by simp [zeroLast]
+  | [_], _ => by simp [zeroLast]
+  | x :: y :: rest, h => by
+    have ih := zeroLast_nonneg (y :: rest) (fun v hv => h v (by simp [hv]))
+    intro v hv
+    simp only [zeroLast, List.mem_cons] at hv
+    rcases hv with rfl | hv
+    · exact h _ (by simp)
+    · exact ih v (by simpa [zeroLast] using hv)
+
+/-- **the ion-free beam potential is a well**: an exact solution of the ion-free e-beam problem
+`A φ = −ρ_e(φ)/ε₀` (electron density `j/v_e(E+φ)`, nowhere positive charge; species with zero line
+density, as `Device.get` passes, contribute nothing) that vanishes at the wall never decreases
+outward and is nowhere positive. The electron charge density depends on `φ` through the electron
+velocity; only its sign is used. -/
+theorem beam_potential_monotone (I : BPIn ℝ) (phi : List ℝ) (hv : I.variant = .ebeam) (hsp : ∀ s ∈ I.sp, s.nl = 0)
+    (hg : GridMP I.r) (hldu : I.ldu = fdNonuniform I.r)
+    (hphi : phi.length = I.r.length) (hc : I.cden.length = I.r.length) (hcd : ∀ c ∈ I.cden, c ≤ 0)
+    (hfix : mulL 0 I.ldu phi = (step I phi).b) (hw : phi.getLast? = some 0) :
+    List.Pairwise (· ≤ ·) phi ∧ ∀ v ∈ phi, v ≤ 0 := by
+  obtain ⟨variant, r, ldu, b0, cden, e_kin, sp⟩ := I
+  simp only at hv hsp hg hldu hphi hc hcd hfix
+  subst hv; subst hldu
+  simp only [step] at hfix
+  set shape : List (List ℝ) := sp.map fun s => phi.map fun p => Transc.exp (-s.q * (p - minL phi) / s.kT) with hshape
+  set i_sr : List ℝ := shape.map fun sh => trapz (List.zipWith (· * ·) r sh) r with hisr
+  set nax : List ℝ := zipWith3 (fun (s : Species ℝ) (sh : List ℝ) (isr : ℝ) => s.nl / lit 2 / Const.PI / isr * sh.headD (lit 0)) sp shape i_sr with hnax
+  have hnax0 : ∀ v ∈ nax, v = 0 := by
+    intro v hv'
+    obtain ⟨s, hs, _, _, _, _, rfl⟩ := mem_zipWith3 _ _ _ _ v hv'
+    simp [hsp s hs]
+  set bion := colSum phi.length (zipWith3 (fun (s : Species ℝ) (sh : List ℝ) nx =>
+      zeroLast (sh.map fun v => -nx * s.q * v * Const.Q_E / Const.EPS_0)) sp shape nax) with hbion
+  have hion : ∀ v ∈ bion, 0 ≤ v := by
+    apply colSum_nonneg
+    intro row hrow
+    obtain ⟨s, _, sh, _, nx, hnx, rfl⟩ := mem_zipWith3 _ _ _ _ row hrow
+    apply zeroLast_nonneg
+    intro v hv'
+    obtain ⟨w, _, rfl⟩ := List.mem_map.mp hv'
+    simp [hnax0 nx hnx]
+  set bxb : List ℝ := List.zipWith (fun c p => -c / Transc.sqrt (lit 2 * Const.Q_E * (e_kin + p) / Const.M_E) / Const.EPS_0) cden phi with hbxb
+  have hbnn : ∀ v ∈ List.zipWith (· + ·) bion bxb, 0 ≤ v := by
+    intro v hv'
+    rw [← List.map_uncurry_zip_eq_zipWith] at hv'
+    obtain ⟨p, hp, rfl⟩ := List.mem_map.mp hv'
+    have h1 : 0 ≤ p.1 := hion _ (List.of_mem_zip hp).1
+    have h2 : 0 ≤ p.2 := by
+      have := (List.of_mem_zip hp).2
+      rw [hbxb, ← List.map_uncurry_zip_eq_zipWith] at this
+      obtain ⟨cp, hcp, e⟩ := List.mem_map.mp this
+      rw [← e]
+      have hc0 := hcd cp.1 (List.of_mem_zip hcp).1
+      simp only [Function.uncurry, Transc.sqrt_real]
+      apply div_nonneg _ Const.EPS_0_pos.le
+      exact div_nonneg (by linarith) (Real.sqrt_nonneg _)
+    simp only [Function.uncurry]; linarith
+  have hbl : (List.zipWith (· + ·) bion bxb).length = r.length := by
+    have := congrArg List.length hfix
+    rw [mulL_length 0 _ phi (by rw [fdNonuniform_length' r hg]; omega)] at this
+    omega
+  have hmono := fd_monotone r _ phi hg hbl hphi hfix hbnn
+  exact ⟨hmono, le_last_of_pairwise phi hmono 0 hw⟩
+
+theorem beamDensity_nonpos (r : List ℝ) (current r_e : ℝ) (hI : 0 ≤ current) :
+    ∀ c ∈ beamDensity r current r_e, c ≤ 0 := by
+  intro c hc
+  unfold beamDensity at hc
+  obtain ⟨x, _, rfl⟩ := List.mem_map.mp hc
+  split_ifs
+  · have := Const.PI_pos
+    have : 0 ≤ current / Const.PI / powN r_e 2 := by rw [powN_real]; positivity
+    have e : -current / Const.PI / powN r_e 2 = -(current / Const.PI / powN r_e 2) := by ring
+    rw [e]; linarith
+  · simp
+
+/-! ### non-vacuity of the comparison principle -/
+example : GridMP [0, 1, 2] := by simp only [GridMP, StepsOk]; norm_num
+/-- a concrete instance of the hypotheses of `fd_monotone` / `fd_comparison`: on the grid `[0, 1, 2]`
+the vector `[-2, -1, 0]` solves `A x = [2, 1, 0]` (a negative charge), and it increases outward -/
+example : mulL 0 (fdNonuniform [(0:ℝ), 1, 2]) [-2, -1, 0] = [2, 1, 0] := by
+  simp [fdNonuniform, fdInterior, fdRow, mulL]; norm_num
+
 end C13
